@@ -1,26 +1,48 @@
 /-
-C20 (CountGenerator): two observations at the edge of the property's hypothesis
-("positive parameters"), both reproduced on the real code through `./check C20 --replay`
-(model and implementation agree line by line).
+C20 (CountGenerator).
 
-1. `getRand` converts its bound with `uint32(max)`: a positive `intervalMaxIncr` (or
-   `periodEndMaxIncr`) that is a multiple of 2^32 becomes 0 and `n % 0` panics
-   (integer divide by zero).  `c20_count_bounds` therefore carries `… < 2^32`.
-   Witness: `AddRule(10, 5, 1, 1<<32); Generate("a", 5)`.
-2. With `periodEndMaxIncr = 0` (not a positive parameter, but the value the package's own
-   test passes) `Generate` adds 0 at the end of a period while `Min` adds 1, so
-   `Min > Generate` and even `Min > Max`.  Witness: `AddRule(10, 0, 1, 1)`, `diff = 10`:
-   `Generate = 10`, `Min = 11`, `Max = 10`.
+F14: refutation of the pre-fix `getRand`, which converted its bound with `uint32(max)`:
+a positive `intervalMaxIncr` (or `periodEndMaxIncr`) that is a multiple of 2^32 becomes 0
+and `n % 0` panics (integer divide by zero).  The proof of `c20_count_bounds` had forced
+the hypothesis `… < 2^32`.  Witness: `AddRule(10, 5, 1, 1<<32); Generate("a", 5)`.
+Repair: `int(uint64(n)%uint64(max)) + 1` (the model in `Golib/Model/C20Count.lean`).
+
+Also recorded (outside the property's hypothesis "positive parameters"): with
+`periodEndMaxIncr = 0` — the value the package's own test passes — `Generate` adds 0 at the
+end of a period while `Min` adds 1, so `Min > Generate` and even `Min > Max`.
+Witness: `AddRule(10, 0, 1, 1)`, `diff = 10`: `Generate = 10`, `Min = 11`, `Max = 10`.
 -/
 import Golib.Model.C20Count
 
 namespace Golib.C20.Findings
 open Golib.C20
 
-theorem count_uint32_truncation_panics :
-    countGenerate [⟨10, 5, 1, 2 ^ 32⟩] (bkdrHash [97]) 5 = none ∧
-    (0 : Int) < 2 ^ 32 := by
-  refine ⟨by decide +kernel, by decide⟩
+/-- `getRand` as the pre-fix code has it: `int(n%uint32(max) + 1)` in `uint32`. -/
+def getRandPre (n : Nat) (max : Int) : Option Int :=
+  if max = 0 then some 0 else
+  let m := (max % 2^32).toNat
+  if m = 0 then none else some (((n % m + 1) % 2^32 : Nat) : Int)
+
+/-- the loop of `Generate` over the pre-fix `getRand` -/
+def genLoopPre (hn : Nat) (diff : Int) : List Rule → Int → Int → Option Int
+  | [], count, _ => some count
+  | v :: rs, count, lastPeriod =>
+    match getRandPre hn v.intervalMaxIncr with
+    | none => none
+    | some multi =>
+      if diff < v.period then
+        (goDiv (diff - lastPeriod) v.interval).map fun q => q * multi + count
+      else
+        match goDiv (v.period - lastPeriod) v.interval, getRandPre hn v.periodEndMaxIncr with
+        | some q, some pe => genLoopPre hn diff rs (count + (q * multi + pe)) v.period
+        | _, _ => none
+
+/-- F14: a positive parameter (2^32) makes the pre-fix `Generate` panic; the repaired
+model returns a value within the bounds. -/
+theorem f14_uint32_truncation_panics :
+    genLoopPre (bkdrHash [97]) 5 [⟨10, 5, 1, 2 ^ 32⟩] 0 0 = none ∧ (0 : Int) < 2 ^ 32 ∧
+    countGenerate [⟨10, 5, 1, 2 ^ 32⟩] (bkdrHash [97]) 5 = some 490 := by
+  refine ⟨by decide +kernel, by decide, by decide +kernel⟩
 
 theorem count_zero_period_end :
     countGenerate [⟨10, 0, 1, 1⟩] (bkdrHash [97]) 10 = some 10 ∧
